@@ -7,8 +7,9 @@ loops unrolled, ...).  The two programs are equivalent.  Per rule:
     written did NOT examine (no instance of that rule names it) -> the finding stands: the rule was vacuous there (typically
     the code it looks for sits in a helper); a finding for a construct that WAS examined and discharged as written is
     a disagreement about the same obligation and is dropped (recorded in the evidence) -- unless the offending statement comes from
-    a helper body spliced in by the normal form: then the run as written discharged the obligation without seeing that statement,
-    and the finding stands;
+    a helper body spliced in by the normal form (the run as written discharged the obligation without seeing that statement), or the
+    rule is observational (its findings report a forbidden construct that was seen, its discharges only that none was): then the
+    finding stands;
   * findings on both forms: per construct, a finding as written whose construct the normal form examines and discharges gives way
     (unrecognised shape), a finding of the normal form for a construct not examined or also failing as written is added; if the
     two forms disagree on every construct, all findings of both are reported."""
@@ -99,7 +100,7 @@ def decide(pid, repo=None, tier='quick', seed=0, only=None):
                 keep = [f for f in r.findings if f['key'] in known or f['key'] in k2
                         or (f['construct'] not in d2_ and f.get('fn') not in prog2.absorbed)]
                 add = [g for g in r2.findings if g['key'] not in k1 and g['key'] not in known
-                       and (g['construct'] not in d1_ or g.get('origin'))]
+                       and (g['construct'] not in d1_ or g.get('origin') or getattr(r2, 'observational', False))]
                 if not any(f['key'] not in known for f in keep + add):
                     keep, add = list(r.findings), [g for g in r2.findings if g['key'] not in k1]
                 dropped = [f['key'] for f in r.findings if f not in keep]
@@ -119,11 +120,12 @@ def decide(pid, repo=None, tier='quick', seed=0, only=None):
             if f['key'] in known or any(g['key'] == f['key'] for g in r.findings):
                 continue
             opaque = f.get('origin')      # the offending statement comes from the body of a helper that the run on the source as written could not see
-            if f['construct'] in examined and not opaque:
+            if f['construct'] in examined and not opaque and not getattr(r2, 'observational', False):
                 info['normal_form_findings_dropped_because_examined_and_discharged_as_written'].append(f['key'])
                 continue
             f = dict(f)
-            f['what'] += ('  [seen on the normal form only: as written, the fact sits behind the call of %s, which the rule does not look into]' % opaque
+            f['what'] += (('  [seen on the normal form only: as written, the fact sits behind the call of %s, which the rule does not look into]' % opaque
+                           if opaque else '  [seen on the normal form only: the equivalent program shows the construct that the rule forbids]')
                           if f['construct'] in examined else
                           '  [seen on the normal form only: as written, the rule examines no instance of this construct]')
             r.findings.append(f)
